@@ -239,7 +239,7 @@ class F:
 
     def __mul__(s, o):
         if isinstance(o, U):
-            raise Unsupported("fixed * variable int")
+            o = o.v  # the generator only multiplies by literals
         if isinstance(o, bool) or not isinstance(o, int):
             raise Unsupported("fixed mul")
         return F(s.v * o, s.i, s.f)
@@ -564,7 +564,19 @@ def _float(x):
 
 
 def _ord(x):
+    if isinstance(x, C):
+        return U(ord(x.ch), 8)
     raise Unsupported("ord")
+
+
+def _qfixed(i, f):
+    def mk(c):
+        v = Fraction(c)
+        if (v * (1 << f)).denominator != 1 or v < 0 or v >= (1 << i):
+            raise Unsupported("fixed constant not representable")
+        return F(v, i, f)
+
+    return mk
 
 
 def _chr(x):
@@ -588,6 +600,8 @@ def make_ref(src, extra=None, fname=None):
     }
     for w in (2, 3, 4, 5, 6, 7, 8, 12, 16):
         ns[f"Qint{w}"] = _qint(w)
+    for i, f in ((1, 2), (1, 3), (1, 4), (1, 6), (2, 2), (2, 3), (2, 4), (2, 6), (3, 3), (3, 4), (3, 6), (4, 4), (4, 6)):
+        ns[f"Qfixed{i}_{f}"] = _qfixed(i, f)
     if extra:
         ns.update(extra)
     exec(compile(tree, "<ref>", "exec"), ns)
